@@ -3,6 +3,12 @@
 //! Serves C01 C02 C03 C05 C15. Same case grammar as oracle/eng_pipe.ml:
 //!   C k | I k | T k | S k i | U k i e | D k i | R k i af a ps wf ws | E k i f |
 //!   B k i | X k | O b | A b af a ps wf ws | Z b | Q af p | M k
+//! and, from the wire (UPDATE octets from C04's proved encoder / malformed variants):
+//!   RB k i <hex>  the octets as the BGP UPDATE of a Route Monitoring message of peer i on router k
+//!   AB b <hex>    the octets as an UPDATE on BGP session b (parsed with SessionConfig::modern())
+//!   QX af <len>/<hex|->  query for a prefix given in wire form (af 0 = IPv4, 1 = IPv6)
+//! A route's attribute set is printed as the small number of the abstract op that
+//! produced exactly these attribute octets, else as n<length>h<FNV-1a 32> of the octets.
 //! Glue emulated here (not exercised): the accept loops' find-or-register of
 //! the router / BGP session id, and the post-loop cleanup of a lost BMP
 //! connection (WithdrawBulk(ids_for_parent)); those are C07/C14's business.
@@ -112,7 +118,42 @@ struct World {
     bgp: BTreeMap<u32, (u32, u32)>,
     bgp_conns: BTreeMap<u32, u32>,
     ids: Vec<(String, u32)>, // wire identity name -> ingress id (first assignment)
+    attr_names: std::collections::HashMap<Vec<u8>, u32>, // attribute octets of the abstract ops -> their number
     rt: tokio::runtime::Runtime,
+}
+
+fn fnv(b: &[u8]) -> u32 {
+    let mut h: u32 = 0x811c9dc5;
+    for x in b {
+        h ^= *x as u32;
+        h = h.wrapping_mul(16777619);
+    }
+    h
+}
+
+/// the attribute octets every route of this UPDATE stores
+fn attr_blob(bytes: &Bytes) -> Option<Vec<u8>> {
+    let msg = UpdateMessage::from_octets(bytes.clone(), &SessionConfig::modern()).ok()?;
+    let routes = rotonda::verif::bgp::explode_announcements(&msg).ok()?;
+    routes.first().map(|r| r.owned_map().clone().into_vec())
+}
+
+fn wire_prefix(af: u32, tok: &str) -> Option<inetnum::addr::Prefix> {
+    let (l, h) = tok.split_once('/')?;
+    let len: u8 = l.parse().ok()?;
+    let bs = if h == "-" { vec![] } else { super::c04::unhex(h)? };
+    let addr = if af % 2 == 0 {
+        let mut o = [0u8; 4];
+        if bs.len() > 4 { return None; }
+        o[..bs.len()].copy_from_slice(&bs);
+        IpAddr::V4(Ipv4Addr::from(o))
+    } else {
+        let mut o = [0u8; 16];
+        if bs.len() > 16 { return None; }
+        o[..bs.len()].copy_from_slice(&bs);
+        IpAddr::V6(std::net::Ipv6Addr::from(o))
+    };
+    inetnum::addr::Prefix::new(addr, len).ok()
 }
 
 impl World {
@@ -127,6 +168,30 @@ impl World {
     fn apply(&mut self, u: Update) {
         let rib = &self.rib;
         self.rt.block_on(async { rib.verif_process_update(u).await }).unwrap();
+    }
+    fn name_attrs(&mut self, bytes: &Bytes, a: u32) {
+        if let Some(blob) = attr_blob(bytes) { self.attr_names.entry(blob).or_insert(a); }
+    }
+    fn attr_tok(&self, meta: &rotonda::payload::RotondaPaMap) -> String {
+        let blob = meta.0.clone().into_vec();
+        match self.attr_names.get(&blob) {
+            Some(a) => a.to_string(),
+            None => format!("n{}h{:08x}", blob.len(), fnv(&blob)),
+        }
+    }
+    fn query(&self, pfx: inetnum::addr::Prefix) -> String {
+        let mo = MatchOptions { match_type: MatchType::ExactMatch, include_withdrawn: true, include_less_specifics: false, include_more_specifics: false, mui: None };
+        let res = self.rib.verif_rib().match_prefix(&pfx, &mo).unwrap();
+        let mut es: Vec<String> = vec![];
+        for r in res.prefix_meta.iter() {
+            let st = if r.status == RouteStatus::Active { "A" } else { "W" };
+            let a = self.attr_tok(&r.meta);
+            let ws: Vec<String> = self.ids.iter().filter(|(_, i)| *i == r.multi_uniq_id).map(|(x, _)| x.clone()).collect();
+            if ws.is_empty() { es.push(format!("?{}={}{}", r.multi_uniq_id, st, a)); }
+            for x in ws { es.push(format!("{x}={st}{a}")); }
+        }
+        es.sort();
+        format!("q:{}", es.join(","))
     }
     fn show_update(&self, u: &Update) -> String {
         match u {
@@ -156,6 +221,7 @@ impl World {
     }
 }
 
+#[allow(dead_code)]
 fn first_hop(meta: &rotonda::payload::RotondaPaMap) -> u32 {
     first_hop_value(&serde_json::to_value(meta).unwrap_or(serde_json::Value::Null))
 }
@@ -198,7 +264,7 @@ pub fn run_case(line: &str) -> String {
     let reg = Arc::new(rotonda::verif::ingress::new_register());
     let unit_id = reg.verif_register();
     let (rib, _agent) = { let _g = rt.enter(); RibUnitRunner::verif_new(reg.clone()) };
-    let mut w = World { reg, unit_id, routers: BTreeMap::new(), rib, bgp: BTreeMap::new(), bgp_conns: BTreeMap::new(), ids: vec![], rt };
+    let mut w = World { reg, unit_id, routers: BTreeMap::new(), rib, bgp: BTreeMap::new(), bgp_conns: BTreeMap::new(), ids: vec![], attr_names: Default::default(), rt };
     let mut out: Vec<String> = vec![];
     for op in ops(line) {
         let n = |i: usize| op[i].parse::<u32>().unwrap();
@@ -214,7 +280,7 @@ pub fn run_case(line: &str) -> String {
                 w.routers.insert(k, (rid, s));
                 out.push("-".into());
             }
-            "I" | "T" | "S" | "U" | "D" | "R" | "E" | "B" => {
+            "I" | "T" | "S" | "U" | "D" | "R" | "E" | "B" | "RB" => {
                 let k = n(1);
                 if !w.routers.contains_key(&k) { out.push("-".into()); continue; }
                 let bytes = match op[0] {
@@ -223,7 +289,16 @@ pub fn run_case(line: &str) -> String {
                     "S" => enc::mk_statistics_report_msg(&pph(n(2) as usize)),
                     "U" => enc::mk_peer_up_notification_msg(&pph(n(2) as usize), "10.0.0.1".parse().unwrap(), 11019, 4567, 111, 222, 0, 0, vec![], n(3) == 1),
                     "D" => enc::mk_peer_down_notification_msg(&pph(n(2) as usize)),
-                    "R" => enc::mk_raw_route_monitoring_msg(&pph(n(2) as usize), update_bytes(n(3), n(4), op[5], n(6), op[7])),
+                    "R" => {
+                        let ub = update_bytes(n(3), n(4), op[5], n(6), op[7]);
+                        w.name_attrs(&ub, n(4));
+                        enc::mk_raw_route_monitoring_msg(&pph(n(2) as usize), ub)
+                    }
+                    "RB" => {
+                        let ub = super::c04::unhex(op[3]).expect("bad hex");
+                        assert!(super::c04::framed(&ub), "RB: the octets are not one framed BGP message");
+                        enc::mk_raw_route_monitoring_msg(&pph(n(2) as usize), Bytes::from(ub))
+                    }
                     "E" => enc::mk_raw_route_monitoring_msg(&pph(n(2) as usize), eor_bytes(n(3))),
                     _ => enc::mk_raw_route_monitoring_msg(&pph(n(2) as usize), malformed_update()),
                 };
@@ -275,6 +350,7 @@ pub fn run_case(line: &str) -> String {
                     None => out.push("-".into()),
                     Some((id, _)) => {
                         let bytes = update_bytes(n(2), n(3), op[4], n(5), op[6]);
+                        w.name_attrs(&bytes, n(3));
                         let msg = UpdateMessage::from_octets(bytes, &SessionConfig::modern()).unwrap();
                         let ip = IpAddr::V4(Ipv4Addr::new(203, 0, 113, b as u8));
                         let prov = Provenance::for_bmp(id, ip, inetnum::asn::Asn::from_u32(64500 + b), ip, [0; 9], PeerRibType::InPre);
@@ -282,6 +358,30 @@ pub fn run_case(line: &str) -> String {
                         match u {
                             Ok(u) => { let t = w.show_update(&u); w.apply(u); out.push(t) }
                             Err(_) => out.push("bgp-error".into()),
+                        }
+                    }
+                }
+            }
+            "AB" => {
+                let b = n(1);
+                match w.bgp.get(&b).copied() {
+                    None => out.push("-".into()),
+                    Some((id, _)) => {
+                        let ub = super::c04::unhex(op[2]).expect("bad hex");
+                        assert!(super::c04::framed(&ub), "AB: the octets are not one framed BGP message");
+                        // a message the session cannot parse never reaches process_update; what the session
+                        // does about it (NOTIFICATION, reset) is not this engine's business
+                        match UpdateMessage::from_octets(Bytes::from(ub), &SessionConfig::modern()) {
+                            Err(_) => out.push("-".into()),
+                            Ok(msg) => {
+                                let ip = IpAddr::V4(Ipv4Addr::new(203, 0, 113, b as u8));
+                                let prov = Provenance::for_bmp(id, ip, inetnum::asn::Asn::from_u32(64500 + b), ip, [0; 9], PeerRibType::InPre);
+                                match w.rt.block_on(rotonda::verif::bgp::verif_process_update(msg, prov)) {
+                                    Ok(u) => { let t = w.show_update(&u); w.apply(u); out.push(t) }
+                                    // router_handler.rs: logged, nothing is sent on
+                                    Err(_) => out.push("-".into()),
+                                }
+                            }
                         }
                     }
                 }
@@ -296,18 +396,11 @@ pub fn run_case(line: &str) -> String {
             "Q" => {
                 let (af, p) = (n(1), n(2));
                 let pfx = inetnum::addr::Prefix::from_str(&prefix_str(af, p)).unwrap();
-                let mo = MatchOptions { match_type: MatchType::ExactMatch, include_withdrawn: true, include_less_specifics: false, include_more_specifics: false, mui: None };
-                let res = w.rib.verif_rib().match_prefix(&pfx, &mo).unwrap();
-                let mut es: Vec<String> = vec![];
-                for r in res.prefix_meta.iter() {
-                    let st = if r.status == RouteStatus::Active { "A" } else { "W" };
-                    let a = first_hop(&r.meta);
-                    let ws: Vec<String> = w.ids.iter().filter(|(_, i)| *i == r.multi_uniq_id).map(|(x, _)| x.clone()).collect();
-                    if ws.is_empty() { es.push(format!("?{}={}{}", r.multi_uniq_id, st, a)); }
-                    for x in ws { es.push(format!("{x}={st}{a}")); }
-                }
-                es.sort();
-                out.push(format!("q:{}", es.join(",")));
+                out.push(w.query(pfx));
+            }
+            "QX" => {
+                let pfx = wire_prefix(n(1), op[2]).expect("QX: not a prefix");
+                out.push(w.query(pfx));
             }
             "M" => {
                 let k = n(1);
